@@ -212,6 +212,11 @@ def r5_pickle(idx, r):
     grid = any(norm(s.stmt) == "self.spatialGrid.armiObject = self" for s in iter_stores(ss.node))
     assoc = any(call_attr(c) == "associate" and norm(c.args[0]) == "self.spatialGrid" for c in iter_calls(ss.node))
     r.require(grid and assoc, "ArmiObject.__setstate__:relinks-grid", ss, msg="__setstate__ must point the grid at the new owner and re-associate the children's locators with it")
+    from ..flow import _path_to
+    for st_ in [s for s in iter_stores(ss.node) if norm(s.stmt) == "self.spatialGrid.armiObject = self"]:
+        path = _path_to(ss.node, st_.stmt) or []
+        r.require(not any(isinstance(par, (ast.For, ast.While)) for par, _f, _i, _c in path), "ArmiObject.__setstate__:grid-owner-outside-loops", ss, node=st_.stmt,
+                  msg="the grid is pointed at its new owner only inside a loop over the children: a copied/unpickled composite with a grid but no children keeps a grid owned by nobody")
     g = idx.cls("armi.reactor.grids.grid.Grid")
     ggs, gss = g.methods.get("__getstate__"), g.methods.get("__setstate__")
     r.require(ggs is not None and any(norm(s.stmt) == "state['armiObject'] = None" for s in iter_stores(ggs.node)), "Grid.__getstate__:strips-owner", ggs or gs, msg="grid state must not carry its owner")
@@ -378,7 +383,7 @@ def r9_paired_query_args(idx, r):
     """`exact` qualifies how `typeSpec` is matched. Inside a query that takes both, every call that hands the
     caller's typeSpec on to another query (any armi function that itself takes `exact`) must hand `exact` on too -
     also inside lambdas and comprehensions - or the qualifier is silently dropped on that path."""
-    TYPES = ("typeSpec", "blockType")
+    TYPES = ("typeSpec", "blockType", "typeID")
     with_exact = set()
     for m in idx.modules.values():
         if m.name.startswith("armi.") and ".tests" not in m.name:
@@ -394,6 +399,12 @@ def r9_paired_query_args(idx, r):
             T = [p for p in ps if p in TYPES]
             if "exact" not in ps or not T:
                 continue
+            # an element drawn from the caller's spec (`for t in typeSpec`, comprehensions) is still the caller's spec
+            T = list(T)
+            for g in ast.walk(f.node):
+                it, tg = (g.iter, g.target) if isinstance(g, (ast.For, ast.comprehension)) else (None, None)
+                if isinstance(it, ast.Name) and it.id in T and isinstance(tg, ast.Name) and tg.id not in T:
+                    T.append(tg.id)
             for c in ast.walk(f.node):
                 if not isinstance(c, ast.Call):
                     continue
@@ -485,6 +496,70 @@ def r10_container_copies(idx, r):
         raise AnalysisError("no dict/list subclass with __deepcopy__ found in armi.reactor (ExcoreCollection expected)")
 
 
+def _self_filter(stmt):
+    """`L = [x for x in L if cond]` / `L = list(filter(f, L))`: returns L."""
+    if not (isinstance(stmt, ast.Assign) and len(stmt.targets) == 1 and isinstance(stmt.targets[0], ast.Name)):
+        return None
+    L, v = stmt.targets[0].id, stmt.value
+    if isinstance(v, ast.Call) and dotted(v.func) in ("list", "tuple") and len(v.args) == 1:
+        v = v.args[0]
+    if isinstance(v, (ast.ListComp, ast.GeneratorExp)) and len(v.generators) == 1:
+        g = v.generators[0]
+        if isinstance(g.iter, ast.Name) and g.iter.id == L and g.ifs and isinstance(v.elt, ast.Name) and isinstance(g.target, ast.Name) and v.elt.id == g.target.id:
+            return L
+    if isinstance(v, ast.Call) and dotted(v.func) == "filter" and len(v.args) == 2 and isinstance(v.args[1], ast.Name) and v.args[1].id == L:
+        return L
+    return None
+
+
+def r11_filter_covers_all(idx, r):
+    """A query that narrows its candidate list `L` by a filter (`L = [x for x in L if ...]`) must not add candidates to `L`
+    after the filter on any path: what is added later is returned unfiltered, so the query returns objects a naive walk
+    with the same arguments would not.  Anchor: Core.getAssemblies filters by typeSpec and by zones."""
+    n = 0
+    anchored = False
+    for m in idx.modules.values():
+        if not m.name.startswith("armi.reactor") or ".tests" in m.name:
+            continue
+        for f in m.all_funcs():
+            filt = {}
+            for st_ in walk_local(f.node):
+                L = _self_filter(st_)
+                if L:
+                    filt.setdefault(L, []).append(st_)
+            if not filt:
+                continue
+
+            def ev(nd, filt=filt):
+                out = []
+                for L, sts in filt.items():
+                    if any(nd is x for x in sts):
+                        out.append("filtered:" + L)
+                return out
+            fl = Flow(f.node, ev).run()
+            for L, sts in filt.items():
+                n += 1
+                if f.qualname == "Core.getAssemblies" and any("hasFlags" in norm(x) for x in sts):
+                    anchored = True
+                grows = []
+                for nd in walk_local(f.node):
+                    if isinstance(nd, ast.Call) and call_attr(nd) in ("extend", "append", "insert") and isinstance(nd.func.value, ast.Name) and nd.func.value.id == L:
+                        grows.append(nd)
+                    elif isinstance(nd, ast.AugAssign) and isinstance(nd.target, ast.Name) and nd.target.id == L and isinstance(nd.op, ast.Add):
+                        grows.append(nd)
+                late = []
+                for g in grows:
+                    stb = fl.state_before(g)
+                    if stb is not None and stb.get("filtered:" + L, (0, 0))[1] >= 1:
+                        late.append(g)
+                r.require(not late, f"{f.qualname}:{L}:no-growth-after-filter", f, node=late[0] if late else sts[0],
+                          msg=f"`{norm(late[0])[:70] if late else ''}` adds candidates to `{L}` after it was filtered: they are returned without the filter applied")
+    if not anchored:
+        raise AnchorMissing("Core.getAssemblies: `assems = [a for a in assems if a.hasFlags(typeSpec, ...)]`")
+    if n < 2:
+        raise AnalysisError(f"only {n} self-filters found")
+
+
 def run(idx, chk):
     chk.explanation = (
         "C01: who may write Composite._children / .parent (frozen owners), pairing of parent/list/locator effects on every path of "
@@ -513,3 +588,5 @@ def run(idx, chk):
                  necessary="queries by flags return exactly the objects a naive walk with the same arguments returns")
     chk.run_rule("R01.10", "container classes that define __deepcopy__ copy their elements; setChildren consumes its argument before clearing", lambda r: r10_container_copies(idx, r), floor=2,
                  necessary="copying a subtree yields an independent, complete tree; structural edits never lose children")
+    chk.run_rule("R01.11", "a query's filter is applied to the complete candidate list (nothing is added to the list after it was filtered)", lambda r: r11_filter_covers_all(idx, r), floor=2,
+                 necessary="queries by flags return exactly the objects a naive walk with the same arguments returns")
